@@ -427,7 +427,7 @@ func runC11(c *Ctx, idx int) {
 			return
 		}
 		// a network handed out earlier stays what it was when the organism rebuilds its phenotype (somebody may still hold it)
-		if len(s.Modules) == 0 {
+		{
 			held := buildFromSnap(s)
 			org1, _ := genetics.NewOrganism(0, held, 1)
 			oldNet, perr := org1.Phenotype()
@@ -454,10 +454,12 @@ func runC11(c *Ctx, idx int) {
 		}
 		// express the same genome object again after it was changed in place (same and another network id): the new
 		// network describes the genome as it is now, not as it was when it was expressed first
-		if len(s.Modules) == 0 {
-			_, _ = fresh.VerifMutateToggleEnable(1 + r.Intn(3))
-			_, _ = fresh.VerifMutateGeneReEnable()
-			_, _ = fresh.VerifMutateLinkWeights(1.5, 1.0, false)
+		{
+			if len(s.Modules) == 0 || r.Intn(2) == 0 {
+				_, _ = fresh.VerifMutateToggleEnable(1 + r.Intn(3))
+				_, _ = fresh.VerifMutateGeneReEnable()
+				_, _ = fresh.VerifMutateLinkWeights(1.5, 1.0, false)
+			}
 			s2 := snapGenome(fresh)
 			for _, id := range []int{1, 2} {
 				net2, err2 := fresh.Genesis(id)
